@@ -61,8 +61,7 @@ impl Writer {
 ===
 .map(|opt: Option<()>| -> (b: bool) ensures b == (opt is Some) { opt.is_some() })
 >>>
-//@spec
-    ensures r matches Ok(b) ==> b == rtxn.view().contains_key(ikey(self.index, item))
+//@specfile lib/contracts/contains_item.spec
 //@end
 
 //@extract src/writer.rs | impl<D: Distance> Writer<D> | item_vector
